@@ -85,9 +85,12 @@ impl Check for C02 {
 		Level::ModelChecking
 	}
 	fn num_cases(&self, _tier: Tier) -> u64 {
-		grid_cases() + HIST_CASES
+		grid_cases() + HIST_CASES + 2
 	}
 	fn describe(&self, tier: Tier, idx: u64) -> String {
+		if idx >= grid_cases() + HIST_CASES {
+			return format!("E2 interleavings: {}", e2_name(idx - grid_cases() - HIST_CASES));
+		}
 		if idx < grid_cases() {
 			let (shape, ibs, sends) = dec_grid(idx);
 			format!(
@@ -97,7 +100,7 @@ impl Check for C02 {
 		} else {
 			let h = idx - grid_cases();
 			format!(
-				"histories on forest {:?} internal buffer {}: all sequences to depth {} over add sound / drop track handle / finish sound / pause / resume / drop send handle",
+				"histories on forest {:?} internal buffer {}: all sequences to depth {} over add sound / drop track handle / finish sound / pause / resume / set_volume (1 s tween) / set_send (1 s tween) / drop send handle",
 				SHAPES[(h % 9) as usize],
 				[2, 3][(h / 9) as usize],
 				tier.pick(3, 4)
@@ -105,6 +108,9 @@ impl Check for C02 {
 		}
 	}
 	fn sig_hint(&self, _tier: Tier, idx: u64) -> String {
+		if idx >= grid_cases() + HIST_CASES {
+			return format!("E2 #{}", idx - grid_cases() - HIST_CASES);
+		}
 		if idx < grid_cases() {
 			let (shape, ibs, sends) = dec_grid(idx);
 			format!("forest {:?} ibs {} sends {}", SHAPES[shape], ibs, sends)
@@ -113,7 +119,7 @@ impl Check for C02 {
 		}
 	}
 	fn rule(&self) -> String {
-		"all 9 forests of <= 3 sub-tracks x internal buffer {1,2,3,4} x {0,1,2} send tracks (routes from track 0, and from the last track for 2 sends) x every subset of {main, tracks} carrying a probe sound x one perturbation at a time (volume -6.0206 / -60 dB on each track, main, send, route; all -6 dB; 2-chunk volume tween; three order-sensitive effect chains on each track, main, send; two sounds on one track) x 4 callback patterns from {1,3,4,7} frames; plus all histories to depth 3 (4 thorough) over 14 letters on fully populated forests. Every callback is compared with the reference sum; states = distinct (adopted, marked, removed, pause state) vectors of the model; non-trivial = scenes with at least two contributing sounds and non-silent output".into()
+		"all 9 forests of <= 3 sub-tracks x internal buffer {1,2,3,4} x {0,1,2} send tracks (routes from track 0, and from the last track for 2 sends) x every subset of {main, tracks} carrying a probe sound x one perturbation at a time (volume -6.0206 / -60 dB on each track, main, send, route; all -6 dB; 2-chunk volume tween; three order-sensitive effect chains on each track, main, send; two sounds on one track) x 4 callback patterns from {1,3,4,7} frames; plus all histories to depth 3 (4 thorough) over 3 + 6 per track + 1 letters (add sound, drop handle, finish sound, pause, resume, tweened set_volume per track; tweened set_send; drop send handle) on fully populated forests; plus E2: all interleavings (preemption bound 2 / 3) of game(add send track; add track routed to it; play) with audio(3 callbacks). Every callback is compared with the reference sum; states = distinct (adopted, marked, removed, pause state) vectors of the model; non-trivial = scenes with at least two contributing sounds and non-silent output".into()
 	}
 	fn assumptions(&self) -> Vec<String> {
 		vec![
@@ -125,6 +131,10 @@ impl Check for C02 {
 		vec![("history_depth".into(), J::u(tier.pick(3, 4)))]
 	}
 	fn run_case(&self, tier: Tier, idx: u64, ctx: &mut Ctx) {
+		if idx >= grid_cases() + HIST_CASES {
+			e2_adoption(tier, idx - grid_cases() - HIST_CASES, ctx);
+			return;
+		}
 		if idx < grid_cases() {
 			let (shape, ibs, sends) = dec_grid(idx);
 			grid(tier, shape, ibs, sends, ctx);
@@ -269,7 +279,9 @@ fn letters(n: usize) -> Vec<String> {
 		v.push(format!("finish the first sound of track {}", i));
 		v.push(format!("pause track {} (instant)", i));
 		v.push(format!("resume track {} (instant)", i));
+		v.push(format!("set_volume(track {}, -12 dB over 1 s = 8 frames)", i));
 	}
+	v.push("set_send(track 0 -> send 0, -60 dB over 1 s)".to_string());
 	v
 }
 
@@ -313,9 +325,14 @@ fn histories(tier: Tier, shape: usize, ibs: usize, ctx: &mut Ctx) {
 						extra += 1;
 						let _ = w.play(Target::Main, a, b);
 					}
+					l if l == ls.len() - 1 => {
+						if n > 0 {
+							w.set_node_route(0, 0, -60.0, 1.0);
+						}
+					}
 					_ => {
-						let i = (l - 3) / 5;
-						match (l - 3) % 5 {
+						let i = (l - 3) / 6;
+						match (l - 3) % 6 {
 							0 => {
 								let (a, b) = sound_code(5 + extra % 3);
 								extra += 1;
@@ -328,7 +345,8 @@ fn histories(tier: Tier, shape: usize, ibs: usize, ctx: &mut Ctx) {
 								}
 							}
 							3 => w.pause_node(i, 0.0),
-							_ => w.resume_node(i, 0.0),
+							4 => w.resume_node(i, 0.0),
+							_ => w.set_node_volume(i, -12.0, 1.0),
 						}
 					}
 				}
@@ -351,4 +369,140 @@ fn histories(tier: Tier, shape: usize, ibs: usize, ctx: &mut Ctx) {
 		}
 	}
 	ctx.outcome(hash64(&("hist", shape, ibs)));
+}
+
+// ---------------------------------------------------------------------------------------------
+// E2: the gameplay thread builds a routed branch while the audio thread adopts new resources.
+// Whatever the interleaving, a callback hears either nothing of the new branch or all of it
+// (dry path + send route): a track is never live without the send track it was routed to.
+
+fn e2_name(i: u64) -> &'static str {
+	[
+		"game(add send track S; add track T routed to S; play DC on T) || audio(3 callbacks of 1 frame): each frame is silent or dry + send",
+		"game(add send track S; add track T; add nested track U routed to S; play DC on U) || audio(3 callbacks)",
+	][i as usize]
+}
+
+fn e2_adoption(tier: Tier, which: u64, ctx: &mut Ctx) {
+	use crate::rig;
+	use crate::sched::{self, Config, Exec};
+	use kira::sound::Region;
+	use kira::track::{MainTrackBuilder, SendTrackBuilder, TrackBuilder};
+	use std::sync::{Arc, Mutex};
+	fn filt(s: &'static str) -> bool {
+		s.starts_with("res.") || s.starts_with("rtrb.") || s.starts_with("arena.")
+	}
+	let cfg = Config { filter: filt, horizon: 4000, max_spin_rounds: 8, record_sites: true, ..Default::default() };
+	#[derive(Debug, Clone, Default, PartialEq)]
+	struct Obs {
+		heard: Vec<(f32, f32)>,
+		monitors: Vec<String>,
+	}
+	let mut body = |prefix: &[u8]| -> (sched::RunResult, Obs) {
+		let mut m = rig::manager(8, 1, rig::caps(4), MainTrackBuilder::new());
+		let mut renderer = m.backend_mut().renderer.take().unwrap();
+		let obs = Arc::new(Mutex::new(Obs::default()));
+		let back = Arc::new(Mutex::new(None));
+		let keep: Arc<Mutex<Option<Box<dyn std::any::Any + Send>>>> = Arc::new(Mutex::new(None));
+		let mut ex = Exec::begin(&cfg, prefix);
+		{
+			let keep = keep.clone();
+			ex.spawn("game", move || {
+				let send = m.add_send_track(SendTrackBuilder::new()).expect("send");
+				let mut t = m.add_sub_track(if which == 0 { TrackBuilder::new().with_send(&send, 0.0) } else { TrackBuilder::new() }).expect("track");
+				let data = rig::static_data(8, rig::dc_frames(4, 0.25)).loop_region(Region::from(..));
+				if which == 0 {
+					let h = t.play(data).expect("play");
+					*keep.lock().unwrap() = Some(Box::new((m, send, t, h)));
+				} else {
+					let mut u = t.add_sub_track(TrackBuilder::new().with_send(&send, 0.0)).expect("nested");
+					let h = u.play(data).expect("play");
+					*keep.lock().unwrap() = Some(Box::new((m, send, t, u, h)));
+				}
+			});
+		}
+		{
+			let (obs, back) = (obs.clone(), back.clone());
+			ex.spawn("audio", move || {
+				let mut buf = [0.0f32; 2];
+				for _ in 0..3 {
+					let rep = rig::callback_on(&mut renderer, &mut buf, 1, 2);
+					let mut o = obs.lock().unwrap();
+					if !rep.ok() {
+						o.monitors.push(format!("{:?}", rep));
+					}
+					o.heard.push((buf[0], buf[1]));
+				}
+				*back.lock().unwrap() = Some(renderer);
+			});
+		}
+		let res = ex.run();
+		let mut o = obs.lock().unwrap().clone();
+		if let Some(mut r) = back.lock().unwrap().take() {
+			for _ in 0..2 {
+				let mut b = [0.0f32; 2];
+				rig::callback_on(&mut r, &mut b, 1, 2);
+				o.heard.push((b[0], b[1]));
+			}
+			drop(r);
+		}
+		drop(keep);
+		(res, o)
+	};
+	let mut outcomes = std::collections::HashSet::new();
+	let mut fails: Vec<(String, String)> = vec![];
+	let mut nontrivial = 0u64;
+	let mut judge = |res: &sched::RunResult, o: &Obs, choices: &[u8]| {
+		outcomes.insert(hash64(&format!("{:?}", o)));
+		if choices.iter().any(|c| *c != 0) {
+			nontrivial += 1;
+		}
+		for p in &res.panics {
+			fails.push((format!("panic in a controlled thread: {} :: E2 #{}", p, which), sched::fmt_schedule(res)));
+		}
+		if let Some(mn) = o.monitors.first() {
+			fails.push((format!("a callback racing with the creation of a routed branch panics, allocates or writes an ill-formed sample :: E2 #{}", which), format!("{}; {}", mn, sched::fmt_schedule(res))));
+		}
+		let mut stage = 0;
+		for (k, (l, r)) in o.heard.iter().enumerate() {
+			let s = if *l == 0.0 && *r == 0.0 {
+				0
+			} else if (*l - 0.5).abs() < 1e-6 && (*r - 0.5).abs() < 1e-6 {
+				1
+			} else {
+				fails.push((
+					format!("a track is live without the send track it is routed to (part of the branch's signal is lost) :: E2 #{}", which),
+					format!("frame {} = ({}, {}), expected silence or 0.5 (dry 0.25 + send 0.25); heard {:?}; {}", k, l, r, o.heard, sched::fmt_schedule(res)),
+				));
+				return;
+			};
+			if s < stage {
+				fails.push((format!("a branch that was audible falls silent again :: E2 #{}", which), format!("heard {:?}; {}", o.heard, sched::fmt_schedule(res))));
+				return;
+			}
+			stage = s;
+		}
+		if stage != 1 {
+			fails.push((format!("the new branch is never heard :: E2 #{}", which), format!("heard {:?}; {}", o.heard, sched::fmt_schedule(res))));
+		}
+	};
+	let stats = sched::explore(tier.pick(Some(2), Some(3)), 3_000_000, &mut body, &mut judge);
+	if let Some(e) = stats.error {
+		ctx.fail(format!("MACHINERY: scheduler error: {}", e), "");
+	}
+	ctx.schedules += stats.schedules;
+	ctx.evals += stats.schedules;
+	ctx.traces += stats.schedules;
+	ctx.transitions += stats.schedules * stats.max_points as u64;
+	ctx.count(&format!("e2_schedules[#{}]", which), stats.schedules);
+	ctx.count(&format!("e2_max_points[#{}]", which), stats.max_points as u64);
+	ctx.count("e2_capped", stats.capped as u64);
+	for o in outcomes {
+		ctx.outcome(o);
+		ctx.state(o);
+	}
+	ctx.nontrivial_extra += nontrivial;
+	for (s, d) in fails {
+		ctx.fail(s, d);
+	}
 }
